@@ -844,7 +844,7 @@ pub fn run(o: &Opts, rep: &mut Report) {
                         }
                     }
                     // free-running stress: real parallelism, the hook only injects short random spins
-                    let free_runs: u64 = if thorough { 400 } else { 10 };
+                    let free_runs: u64 = if thorough { 2000 } else { 300 };
                     for i in 0..free_runs {
                         let out = run_one(scn, Strategy::Free);
                         let id = format!("E4f:{}:{}:{}:free:{}", prop, seed, si, i);
